@@ -42,3 +42,8 @@ def run(tier):
     v.assumptions = ["numbers are exact quarters; programs whose reference run is Unspecified (e.g. a hoisted function reading a variable before its `make` ran) or out of fuel are run for crash-freedom only",
                      "crashes are reported by C06, frame-arena-only deviations by C02, plan-only deviations by C03"]
     return v.finish()
+
+
+def replay(path):
+    import replaytool
+    return replaytool.replay("C04", path)
